@@ -334,6 +334,43 @@ func c08Run(w *core.W) {
 			}
 		}
 	}
+	// (5c) one type used several times as a key shortcut and as a value, in every order
+	slots := []string{"{\n\t\t@id: 1\n\t}", "@id", "@id | @s", "[\n\t\t@id\n\t]", `"u-2" // {type: "@id"}`}
+	var seqs [][]int
+	var gens func(p []int)
+	gens = func(p []int) {
+		if len(p) >= 3 {
+			seqs = append(seqs, append([]int{}, p...))
+		}
+		if len(p) == 4 {
+			return
+		}
+		for i := range slots {
+			gens(append(p, i))
+		}
+	}
+	gens(nil)
+	for _, sq := range seqs {
+		if !mine() {
+			continue
+		}
+		var props []string
+		for i, sl := range sq {
+			txt := slots[sl]
+			line := fmt.Sprintf("\t\"p%d\": ", i)
+			comma := ","
+			if i == len(sq)-1 {
+				comma = ""
+			}
+			if j := strings.Index(txt, " // "); j >= 0 {
+				line += txt[:j] + comma + txt[j:]
+			} else {
+				line += txt + comma
+			}
+			props = append(props, line)
+		}
+		c08Case(w, &project{Root: "{\n" + strings.Join(props, "\n") + "\n}", Types: map[string]string{"@id": `"u-1"`, "@s": `"s"`}}, "key-shortcut-reuse")
+	}
 	// (7) regex user types in every kind of reference
 	for _, body := range []string{"@r", "{\n\t\"k\": @r\n}", "[\n\t@r\n]", `"aab" // {type: "@r"}`, "@r | @s", `"aab" // {or: ["@r", "integer"]}`,
 		"{\n\t@r: 1\n}", "{} // {additionalProperties: \"@r\"}", "{\n\t\"k\": @r, // {optional: true}\n\t\"m\": @q\n}"} {
